@@ -703,3 +703,16 @@ def record_update(origin, is_loaded):
     if is_loaded(o):
         return {}
     return None
+
+
+def success_payloads(prov, fn):
+    """what `fn` answers on success: the payload of every `Ok(..)` it can return, and - for a result handed on as it is
+    (`f(..)`, `f(..).map_err(Into::into)`) - the call itself"""
+    out = []
+    for site, v in success_return_sites(prov, fn):
+        o = peel(v)
+        if o[0] == "agg" and o[1].endswith("Result::Ok") and o[2]:
+            out.append(o[2][0][1])
+        else:
+            out.append(o)
+    return out
